@@ -10,7 +10,7 @@ import (
 	"hzcheck/core"
 )
 
-func init() { register("C20", c20Ops, c20NoPanic) }
+func init() { register("C20", c20Ops, c20NoPanic, c20Fixpoint) }
 
 const relTagexpr = "internal/tagexpr"
 
@@ -404,4 +404,118 @@ func assertSafe(w *core.World, info *types.Info, fi *core.FuncInfo, ta *ast.Type
 		return true, ""
 	}
 	return false, "unrecognised operand form; undecided"
+}
+
+// C20.fixpoint — the precedence rotation is iterated until no pass changes the tree, so a pass
+// must report a change whenever it or any sub-pass rotated something.
+func c20Fixpoint(e *Env) {
+	const rule = "C20.fixpoint"
+	w, r := e.W, e.R
+	r.Explainf("C20.fixpoint: the priority sort is `for pass(root) {}` over a self-recursive pass that returns whether it changed the tree. For that loop to stop only at a fixpoint, every return of the pass must be `true` right after a rotation, or the `||` of the results of all its recursive calls (or `false` before any recursive call); combining sub-results with `&&`, or dropping one, stops the iteration with a half re-associated tree that evaluates with the wrong precedence.")
+	p := w.Pkg(relTagexpr)
+	if p == nil {
+		r.Anchor(rule, "package internal/tagexpr")
+		return
+	}
+	info := p.TypesInfo
+	// passes: self-recursive bool functions used as a `for` condition somewhere in the package
+	var passes []*core.FuncInfo
+	for _, fi := range declaredNonTest(w) {
+		if fi.Pkg != p {
+			continue
+		}
+		ast.Inspect(fi.Decl.Body, func(n ast.Node) bool {
+			fs, ok := n.(*ast.ForStmt)
+			if !ok || fs.Cond == nil {
+				return true
+			}
+			if c, ok := unparen(fs.Cond).(*ast.CallExpr); ok {
+				if f := calleeOf(info, c); f != nil {
+					if d := w.DeclOf(f); d != nil && d.Pkg == p {
+						rec := len(funcsCallingIn(d, func(g *types.Func) bool { return g == f })) > 0
+						sig := f.Type().(*types.Signature)
+						if rec && sig.Results().Len() == 1 && types.Identical(sig.Results().At(0).Type(), types.Typ[types.Bool]) {
+							passes = append(passes, d)
+						}
+					}
+				}
+			}
+			return true
+		})
+	}
+	r.Floor(rule, len(passes), 1, "self-recursive change-reporting passes driven by a for-loop")
+	for _, d := range passes {
+		fname := w.FuncName(d.Obj)
+		// locals assigned from recursive calls
+		rec := map[*types.Var]bool{}
+		var firstRec token.Pos
+		ast.Inspect(d.Decl.Body, func(n ast.Node) bool {
+			if as, ok := n.(*ast.AssignStmt); ok && len(as.Lhs) == 1 && len(as.Rhs) == 1 {
+				if c, ok := unparen(as.Rhs[0]).(*ast.CallExpr); ok && calleeOf(info, c) == d.Obj {
+					if v := usedVar(info, as.Lhs[0]); v != nil {
+						rec[v] = true
+						if !firstRec.IsValid() {
+							firstRec = as.Pos()
+						}
+					}
+				}
+			}
+			return true
+		})
+		// recursive calls whose result is dropped
+		dropped := 0
+		ast.Inspect(d.Decl.Body, func(n ast.Node) bool {
+			if es, ok := n.(*ast.ExprStmt); ok {
+				if c, ok := es.X.(*ast.CallExpr); ok && calleeOf(info, c) == d.Obj {
+					dropped++
+				}
+			}
+			return true
+		})
+		r.Check(dropped == 0, rule, fname+":no-dropped-subresult", w.Pos(d.Decl.Pos()), "no recursive call's change flag is discarded", fmt.Sprintf("%d recursive calls ignore their result", dropped))
+		k := 0
+		par := parents(d.Decl)
+		ast.Inspect(d.Decl.Body, func(n ast.Node) bool {
+			rs, ok := n.(*ast.ReturnStmt)
+			if !ok || len(rs.Results) != 1 {
+				return true
+			}
+			k++
+			key := fmt.Sprintf("%s:return#%d", fname, k)
+			ex := unparen(rs.Results[0])
+			okRet, why := false, ""
+			if id, isId := ex.(*ast.Ident); isId && id.Name == "true" {
+				okRet = true
+			} else if isId && id.Name == "false" {
+				okRet = !firstRec.IsValid() || rs.Pos() < firstRec
+				why = "returns false although sub-passes ran before"
+			} else {
+				// must be an ||-chain mentioning every recursive result
+				seen := map[*types.Var]bool{}
+				pure := true
+				var walk func(e ast.Expr)
+				walk = func(e ast.Expr) {
+					switch x := unparen(e).(type) {
+					case *ast.BinaryExpr:
+						if x.Op != token.LOR {
+							pure = false
+							return
+						}
+						walk(x.X)
+						walk(x.Y)
+					default:
+						if v := usedVar(info, x); v != nil && rec[v] {
+							seen[v] = true
+						}
+					}
+				}
+				walk(ex)
+				okRet = pure && len(seen) == len(rec)
+				why = "`" + nodeString(rs) + "` is not the `||` of all " + fmt.Sprint(len(rec)) + " sub-pass results: a change made deeper in the tree can be reported as `no change` and the rotation stops before the tree is fully re-associated"
+			}
+			_ = par
+			r.Check(okRet, rule, key, w.Pos(rs.Pos()), "the pass reports a change whenever it or any sub-pass changed the tree", why)
+			return true
+		})
+	}
 }
